@@ -360,4 +360,24 @@ def renderSeq {R : Type} (fmtReal : R → List UInt8) : List (Prim R) → List U
     let (tx, t) := render fmtReal x t
     (tx ++ g ++ r, t)
 
+
+/-- The tails the harness appends after a rendering (what follows an object in real files: nothing, white-space,
+    a closing delimiter, the next object, a keyword, a comment).  `Lemmas/RenderTail` proves that after any of
+    them nothing merges with the object before (`Ahead`), so the headline theorems of C03 have no side
+    condition left for them.  The harness compares its own list with this one (`c03.tails`). -/
+def tails : List (List UInt8) :=
+  [ [],                                   -- end of input
+    [32],                                 -- SP
+    [10],                                 -- LF
+    [93],                                 -- ]
+    [62, 62],                             -- >>
+    [47, 88],                             -- /X
+    [40, 120, 41],                        -- (x)
+    [60, 52, 49, 62],                     -- <41>
+    [91],                                 -- [
+    [101, 110, 100, 111, 98, 106],        -- endobj
+    [37, 32, 99, 10],                     -- % c LF
+    [32, 49, 32, 48, 32, 111, 98, 106],   -- SP 1 0 obj
+    [116, 114, 117, 101] ]                -- true
+
 end PdfSpec
